@@ -6,6 +6,7 @@ import WS.Model.App
 import WS.Model.Keepalive
 import WS.Spec.KeepaliveSpec
 import WS.Lemmas.Keepalive
+import WS.Lemmas.KeepaliveNFP
 namespace WS.Props.C16
 open WS WS.Model
 
@@ -164,6 +165,35 @@ example :
       | .wrote 9 _ => some (te.1, "ping") | .cb .onError [.exn .timeout] => some (te.1, "timeout") | _ => none) =
       [(6144, "ping"), (9216, "ping"), (12083, "timeout")] := by
   decide
+
+open WS.Lemmas.Keepalive in
+/-- **C16_no_false_positive** — for every accepted pair (`to < iv`), every arrival pattern of data frames, every
+    order at simultaneous wake-ups (schedule), every horizon and fuel: a peer whose pongs are answers --
+    each one arrives within `to` after a ping tick, every ping whose answer window lies before the horizon
+    gets one (`Responsive`) -- is never reported.  (The full-strength statement "whatever the other traffic"
+    fails for unsolicited late pongs: `C16_no_false_positive_counterexample`, finding F12.) -/
+theorem C16_no_false_positive (iv to horizon fuel : Nat) (arr : List (Nat × Keepalive.Kind)) (sched : List Bool)
+    (hiv : 0 < iv) (hto : to < iv) (hr : Responsive iv to horizon arr) :
+    (Keepalive.run iv to horizon fuel arr sched).2 = none := by
+  unfold Keepalive.run
+  exact loop_no_report iv to horizon arr hiv hto hr fuel _ (ninv_init iv horizon arr sched)
+
+open WS.Lemmas.Keepalive in
+/-- non-vacuity: iv = 10, to = 5, horizon 40; data frames at 3 and 25, pongs one tick after the pings at 20
+    and 30: the hypotheses hold (and the run indeed reports nothing). -/
+example : Responsive 10 5 40 [(3, .data), (21, .pong), (25, .data), (31, .pong)] ∧
+    Keepalive.run 10 5 40 50 [(3, .data), (21, .pong), (25, .data), (31, .pong)] [true, false] = ([20, 30, 40], none) := by
+  refine ⟨⟨by decide, ?_, ?_⟩, by decide⟩
+  · intro a ha
+    simp at ha
+    rcases ha with rfl | rfl
+    · exact Or.inr ⟨2, by omega, by omega, by omega⟩
+    · exact Or.inr ⟨3, by omega, by omega, by omega⟩
+  · intro k hk hlt
+    have : k = 2 ∨ k = 3 := by omega
+    rcases this with rfl | rfl
+    · exact ⟨21, by simp, by omega, by omega⟩
+    · exact ⟨31, by simp, by omega, by omega⟩
 
 /- F12, second part (recorded): a responsive peer that also sends an unsolicited pong later than `to` after
    the last ping is reported (`last_pong_tm - last_ping_tm > ping_timeout`). -/
